@@ -521,3 +521,8 @@ package smtp
 //@ func smtp.Client.Auth (a) (err)
 //@   requires[C05:wf] namesafe(c) && a != nil
 //@   loop 1 invariant[C05:responses-are-base64] c != nil && c.didHello
+
+// C06 (continued): the envelope lines carry the address they were given, as an argument of a constant format
+//@ at smtp.Client.Rcpt smtp.Client.cmd#1 before assert[C06:rcpt-line] arg2 == "RCPT TO:<%s>" && len(arg3) == 1 && istype(arg3[0], "string") && unboxstr(arg3[0]) == to
+//@ at smtp.Client.Rcpt smtp.Client.cmd#2 before assert[C06:rcpt-line] arg2 == "RCPT TO:<%s> NOTIFY=%s" && len(arg3) == 2 && istype(arg3[0], "string") && unboxstr(arg3[0]) == to
+//@ at smtp.Client.Mail smtp.Client.cmd#1 before assert[C06:mail-line] len(arg3) == 1 && istype(arg3[0], "string") && unboxstr(arg3[0]) == from
